@@ -6,6 +6,15 @@ ALL = ["C%02d" % i for i in range(1, 21)]
 
 # property -> (technique, decided clauses (short), not decided / assumptions)
 CLAIMED = {
+ "C05": ("per-protocol reach-set tables (writer/reader agreement), counter-direction sibling check, call classification of connection reads, buffer-alias value flow (go/ssa)",
+         "C05.1 all nine Proto implementations cover the full field table in Pack and Unpack (frozen exemptions; websocket status = known finding F4); C05.2 thrift size counters per direction; C05.3 one connection write per frame; C05.5 only full reads on receive paths; C05.6 service method / body never alias the pooled read buffer",
+         "round-trip equality over the message space (escaping of quotes/backslashes in the JSON protocols, length boundaries, metadata multimap order), third-party thrift/protobuf framing, chunking inside library readers"),
+ "C06": ("dominance of the read-limit check over wire-sized allocations, error-use analysis, cycle analysis of accumulating reads, defer/recover scan, no-go static reachability (go/ssa)",
+         "C06.1 every wire-sized buffer (ChangeLen/make) only after an error-checked SetSize; C06.2 SetSize errors honoured on all receive paths; C06.3 accumulating read loops are bounded; C06.4 recover barriers on reader, handlers and public send/receive entry points; C06.5 raw length arithmetic checked; C06.6 handler goroutines never close their own session synchronously",
+         "absence of decoder panics (index out of range on short frames is contained by C06.4, not excluded); allocations inside thrift/protobuf/gzip libraries (gzip.OnUnpack inflates without bound); websocket frames are bounded by the websocket layer's own MaxPayloadBytes; wedging by a slow peer (timeouts)"),
+ "C12": ("loop-direction matching, error-flow analysis on receive paths, dominance, pooled-buffer escape analysis (go/ssa)",
+         "C12.1 OnPack descending / OnUnpack ascending, errors stop; C12.2 Append refuses unregistered ids and its error is checked on every receive path; C12.3 reply inherits the caller's pipe before handler/stages/writes; C12.4 md5 verify guards the data; C12.5 every protocol carries the pipe; C12.6 no pooled buffer escapes its release; C12.7 the reply's pipe is never reset on the reply path",
+         "exact inversion for all payloads (gzip/md5 library correctness); user-registered filters"),
  "C04": ("constant tables, sibling-shape comparison of the eight handler closures, phi-origin/dominance analysis of the caller-visible status, per-protocol reach-sets (go/ssa)",
          "C04.1 code table and sentinel construction; C04.2 error reply sets status and clears body+codec before the write; C04.3 handler closures plumb status/body uniformly; C04.4 caller's status = wire status, else recorded read/decode error, else hook verdict, never overwriting an earlier veto; C04.6 every Proto implementation reads and decodes the status (websocket sub-protocols: known finding F4); C04.7 panic -> 500; C04.8 refusal -> 102 sentinel; C04.9 Status(true) allocates",
          "value fidelity of the status encodings (code/msg/cause bytes through query/JSON escaping); user handlers"),
